@@ -56,6 +56,71 @@ func coqState(d *dump) string {
 	return fmt.Sprintf("(mkState %s %s %s %s %s)", bal(d.Bal["ONT"]), bal(d.Bal["ONG"]), al(d.Allow["ONT"]), al(d.Allow["ONG"]), bal(d.Offs))
 }
 
+// coqDelta prints the records that differ between two dumps plus the per-family digests.
+func coqDelta(before, after *dump) string {
+	bl := func(b, a []balEnt) string {
+		var s []string
+		old := map[common.Address]*big.Int{}
+		for _, e := range b {
+			old[e.A] = e.V
+		}
+		now := map[common.Address]bool{}
+		for _, e := range a {
+			now[e.A] = true
+			if o, ok := old[e.A]; !ok || o.Cmp(e.V) != 0 {
+				s = append(s, fmt.Sprintf("B %s %s", coqAddr(e.A), coqZ(e.V)))
+			}
+		}
+		for _, e := range b {
+			if !now[e.A] {
+				s = append(s, "BX "+coqAddr(e.A))
+			}
+		}
+		return hx.CoqList(s)
+	}
+	al := func(b, a []allowEnt) string {
+		var s []string
+		type key struct{ o, s common.Address }
+		old := map[key]*big.Int{}
+		for _, e := range b {
+			old[key{e.O, e.S}] = e.V
+		}
+		now := map[key]bool{}
+		for _, e := range a {
+			now[key{e.O, e.S}] = true
+			if o, ok := old[key{e.O, e.S}]; !ok || o.Cmp(e.V) != 0 {
+				s = append(s, fmt.Sprintf("A %s %s %s", coqAddr(e.O), coqAddr(e.S), coqZ(e.V)))
+			}
+		}
+		for _, e := range b {
+			if !now[key{e.O, e.S}] {
+				s = append(s, fmt.Sprintf("AX %s %s", coqAddr(e.O), coqAddr(e.S)))
+			}
+		}
+		return hx.CoqList(s)
+	}
+	var dg []string
+	cnt := func(n int, sum *big.Int) { dg = append(dg, hx.CoqZ(int64(n)), coqZ(sum)) }
+	asum := func(l []allowEnt) *big.Int {
+		t := new(big.Int)
+		for _, e := range l {
+			t.Add(t, e.V)
+		}
+		return t
+	}
+	osum := new(big.Int)
+	for _, e := range after.Offs {
+		osum.Add(osum, e.V)
+	}
+	cnt(len(after.Bal["ONT"]), after.sum("ONT"))
+	cnt(len(after.Bal["ONG"]), after.sum("ONG"))
+	cnt(len(after.Allow["ONT"]), asum(after.Allow["ONT"]))
+	cnt(len(after.Allow["ONG"]), asum(after.Allow["ONG"]))
+	cnt(len(after.Offs), osum)
+	return fmt.Sprintf("(Delta %s %s %s %s %s %s)", bl(before.Bal["ONT"], after.Bal["ONT"]), bl(before.Bal["ONG"], after.Bal["ONG"]),
+		al(before.Allow["ONT"], after.Allow["ONT"]), al(before.Allow["ONG"], after.Allow["ONG"]), bl(before.Offs, after.Offs), hx.CoqList(dg))
+}
+
 func v2onAt(net, height uint32) (on bool, wrap bool) {
 	withNet(net, func() {
 		on = height >= config.GetAddDecimalsHeight()
@@ -316,7 +381,7 @@ func runDirect(c *hx.Ctx, seq *jSeq, g *sgen, nCalls int) {
 					}
 				}
 			}
-			steps = append(steps, fmt.Sprintf("(%s, %s, %s)", coqCall(seq.Net, k), term, coqState(after)))
+			steps = append(steps, fmt.Sprintf("Step %s %s %s", coqCall(seq.Net, k), term, coqDelta(before, after)))
 			before = after
 		}
 		c.Count(fmt.Sprintf("net:%d", seq.Net))
@@ -325,15 +390,18 @@ func runDirect(c *hx.Ctx, seq *jSeq, g *sgen, nCalls int) {
 			c.Nontrivial(string(b))
 		}
 		c.Sample(map[string]interface{}{"net": seq.Net, "calls": len(seq.Calls), "first_call": seq.Calls[0], "ok_calls": okCalls})
-		c.Case(fmt.Sprintf("CSeq %d %s %s", seq.Net, coqState(d0), "["+strings.Join(steps, ";\n   ")+"]"), seq)
+		c.Case(fmt.Sprintf("CSeq %d %s %s %s", seq.Net, coqState(d0), "["+strings.Join(steps, ";\n   ")+"]", coqState(before)), seq)
 	})
 }
 
 func newGen(c *hx.Ctx, net uint32) *sgen {
 	g := &sgen{c: c, net: net, users: 3}
+	// user addresses are small numbers (the contracts only compare addresses; small numerals keep
+	// the case file quick to parse); the ledger-mode histories use real key-derived addresses.
+	base := 16 + c.Intn(200)
 	for i := 0; i < g.users; i++ {
 		var a common.Address
-		copy(a[:], c.Bytes(20))
+		a[18], a[19] = byte((base+i)>>8), byte(base+i)
 		g.accts = append(g.accts, a)
 	}
 	g.accts = append(g.accts, govC, ontC)
